@@ -20,6 +20,9 @@ def check(ctx):
     R.compare(ctx, rows, proj_rel, 'C14 release of the source (single operators)', nontrivial=nontrivial_op)
     rows = R.run_kind(ctx, 'chains')
     R.compare(ctx, rows, proj_rel, 'C14 release of the source (chains with early terminators and cuts)', nontrivial=lambda c, gd: gd.get('trace', '-') != '-')
+    for kind in ('multi', 'multib'):
+        rows = R.run_kind(ctx, kind)
+        R.compare(ctx, rows, lambda d: (flag(d), d.get('rel'), d.get('subs')), f'C14 release of every source of a multi-source operator ({kind})', nontrivial=lambda c, gd: True, max_report=2)
     rows = R.run_kind(ctx, 'cancel')
     R.compare(ctx, rows, proj_all, 'C14 never-ending asynchronous source below each operator', nontrivial=lambda c, gd: True, recheck=2)
     for r in catalogue():
